@@ -944,6 +944,17 @@ class C09(Prop):
           'lists with callbacks; 400 histories with re-entrant handlers (subscribing nodes that answer every event '
           'with a call of their own on themselves / a descendant / an ancestor, nesting bound 1-3; log entries are '
           'tagged with the call they belong to and every call is judged on its own). '
+          '250 histories over TWO trees and 1-2 worker threads besides the harness thread: threads enter / leave '
+          'notify_on_change(v) and any thread mutates a node of either tree -- whether the call notifies is decided by '
+          'the scopes of the calling thread alone; 350 histories in which Lists / Dicts hold pg.Ref items pointing '
+          'into the second tree, the items being removed / replaced (clear, pop, del, popitem, assignment, slice calls, '
+          'rebind, update, *= 0, reverse), then the referenced tree is mutated: payloads carry the stored Ref, the '
+          'other tree keeps contents, links (sym_parent / sym_path) and fresh memos, its ancestors are notified; '
+          '400 histories of writes that a value spec REFUSES (KeyError: key unknown to a nested schema; TypeError: atom / '
+          'list / object of another class / str for int; ValueError: int below min_value, None) on fields holding a '
+          'schema-bound Dict or an object, by assignment or one-pair rebind from the owner or an ancestor, followed by '
+          'mutations inside the value that stayed in place (events at every subscribing ancestor, memo freshness) and '
+          'accepted replacements. '
           'Object classes form the hierarchy Plain -> Mid -> Sub (only Sub overrides _on_change) and are created '
           'afresh for every case. A second, oracle-only stream inserts partial objects, pure-symbolic and non-deterministic values. '
           'Non-trivial: some node on the path from the root to a written location subscribes; distinct by JSON.')
@@ -955,7 +966,9 @@ class C09(Prop):
       'two memos per node (nondefault, missing) against the value specs of the harness classes (fields with '
       'defaults incl. container / object defaults, required fields, schema-bound nested Dicts); the memo of a '
       'schema-bound node is modelled as a flattened snapshot; _sym_puresymbolic / is_deterministic are oracle-only; '
-      'writes whose value a spec would transform or reject are not generated (C03); a nested call issued by a handler '
+      'writes whose value a spec would transform are not generated (C03); writes a spec REJECTS are generated for '
+      'the fields `opt` (fixed Dict schema with an Int(min_value=0)) and `o` (Object(C09Inner)) of the class C09Chk only: '
+      'the model (rejection / stepV) is told what these two fields accept and says which error class results; a nested call issued by a handler '
       'is modelled as running on the tree with the outer call completely applied (memos reset, placeholders dropped): '
       'handlers that react are not combined with deleting rebinds; nested calls put atoms at leaf locations; '
       'notify_parents=False, _on_parent_change / '
@@ -964,6 +977,12 @@ class C09(Prop):
       'nor modelled',
       'THE MODEL MIRRORS THE TREE WITH fixes/C09-F55.patch (clear / popitem / sort / reverse report what they removed '
       '/ moved) AND fixes/C09-F112.patch (del l[-1] reports the position) APPLIED',
+      'two trees / threads: real threading.Thread workers driven one step at a time (deterministic schedule, no '
+      'preemption inside a call); the model keeps one stack of notify_on_change scopes per thread; a pg.Ref item is '
+      'modelled as a field-less object (class 9), the tree it points into is the second tree of the case; holders of '
+      'pg.Ref items and their ancestors are Dicts / Lists (observation F380: the flattened sym_nondefault() of an '
+      'OBJECT with a Dict-valued field walks through the references); "fresh computation" for a tree holding pg.Ref '
+      'items is a deep clone (JSON cannot carry them)',
       'position-shifting list calls: the contract is read on the edit (removed item -> MISSING at its former position, '
       'MISSING -> inserted item at its new position, old -> new for replaced items)',
   ]
